@@ -10,7 +10,7 @@ namespace C12
 /-- NumPy's closeness test, exactly: `|a-b| ≤ 1e-8 + 1e-5·|b|` -/
 theorem isclose_iff (a b : ℝ) : iscloseS a b = true ↔ |a - b| ≤ 1 / 10 ^ 8 + 1 / 10 ^ 5 * |b| := by
   unfold iscloseS atolC rtolC
-  simp only [decide_eq_true_eq, dec_eq, absS_eq, not_lt, Nat.cast_one]
+  simp only [Bool.and_eq_true, decide_eq_true_eq, dec_eq, absS_eq, not_lt, Nat.cast_one, beq_self_eq_true, and_true]
 
 theorem allclose_iff (a b : Array ℝ) :
     allclose a b = true ↔ a.size = b.size ∧ ∀ i, i < a.size → |a[i]! - b[i]!| ≤ 1 / 10 ^ 8 + 1 / 10 ^ 5 * |b[i]!| := by
